@@ -1,7 +1,8 @@
 /-
   C04 — Address claiming yields unique addresses; the lowest NAME keeps a contested one.
-  Handler-level theorems (every CA state, every received claim) about Model/Ca.lean; the network-level statements
-  (uniqueness at quiescence, settling) are exercised by the oracle on real stacks, see MANIFEST level note.
+  Handler-level theorems (every CA state, every received claim) about Model/Ca.lean, the network invariant and
+  uniqueness at quiescence over every interleaving (Model/CaNet.lean), and the dispatch of claim frames to the CAs by
+  both data link layers; settling in bounded real time is exercised by the oracle on real stacks.
 -/
 import J1939.Model.Ca
 import J1939.Model.CaNet
@@ -9,6 +10,8 @@ import J1939.Lemmas.Tactics
 import J1939.Lemmas.ConstCa
 import J1939.Props.C13
 import J1939.Props.C15
+import J1939.Lemmas.Bam21
+import J1939.Model.Dll22
 namespace J1939.Props.C04
 open J1939 J1939.Gen J1939.Ca J1939.Props.C13
 
@@ -493,4 +496,32 @@ theorem c04_at_kept_by_step (n : Net) (h : NetInv n) (e : CaNet.Ev) (i a : Nat) 
 
 end net
 
+/-! ### the data link layers hand every claim frame to the CAs -/
+
+theorem mask_claim : (60928 + 255) &&& 130816 = 60928 := by decide
+
+/-- THE BUS REACHES EVERY CA: the frame `_send_address_claimed` builds (PF 238 to the global address, from any source
+    address incl. 254), received by ANY stack on either data link layer, is handed on as an address claim from that
+    source with its 8 bytes — whatever the receiving stack's CAs accept (`acc` arbitrary: a CA that is still waiting, has
+    no address or cannot claim accepts nothing, yet sees the claim), in any state of the layer, changing nothing in it.
+    This is the delivery step `CaNet.step` takes for granted. -/
+theorem c04_claim_dispatch (cfg21 : Dll21.Cfg) (s21 : Dll21.St) (cfg22 : Dll22.Cfg) (s22 : Dll22.St) (now : Nat) (acc : Nat → Bool)
+    (c : Ca.Ca) (a : Nat) (ha : a < 256) :
+    Dll21.notify cfg21 s21 now acc (claimFrame c a).id (claimFrame c a).data = { st := s21, outs := [.claim a (Name.bytes c.name)] } ∧
+    Dll22.notify cfg22 s22 now acc (claimFrame c a).id (claimFrame c a).data = { st := s22, outs := [.claim a (Name.bytes c.name)] } := by
+  have hG : Const.Addr.GLOBAL = 255 := rfl
+  obtain ⟨h1, _, h3⟩ := Dll21.tp_id_parse 6 238 255 a (by omega) (by omega) (by omega) ha
+  have hid : (claimFrame c a).id = MessageId.can_id (MessageId.ofFields 6 (PGN.value (PGN.ofFields 0 238 255)) a) := rfl
+  have hp2 : PGN.is_pdu2_format { data_page := 0, pdu_format := 238, pdu_specific := 255 } = false := by decide
+  have hnpv : Tp21.notify_pgn_value { data_page := 0, pdu_format := 238, pdu_specific := 255 } = Const.PGN.ADDRESSCLAIM := by decide
+  have hne : (Const.PGN.ADDRESSCLAIM == Const.PGN.FEFF_MULTI_PG) = false := by decide
+  constructor
+  · unfold Dll21.notify
+    simp only [hid] 
+    simp only [h1, h3, hp2, hnpv, hG, Bool.false_eq_true, if_false, bne_self_eq_false, Bool.false_and, beq_self_eq_true, if_true]
+    rfl
+  · unfold Dll22.notify
+    simp only [hid]
+    simp only [h1, h3, hp2, hnpv, hne, hG, Bool.false_eq_true, if_false, bne_self_eq_false, Bool.false_and, beq_self_eq_true, if_true]
+    rfl
 end J1939.Props.C04
